@@ -4,6 +4,7 @@ Note data codec, grouping, counting, timing of notes (properties C07-C10, C13).
 from __future__ import annotations
 
 import ast
+import re
 from typing import Any, Dict, List, Optional, Set, Tuple
 
 from ..cfg import PathEnumerator
@@ -61,131 +62,151 @@ def notetype_table(ctx: Ctx) -> None:
 
 
 def beat_formula(ctx: Ctx) -> None:
-    """C07.2: Beat(n, d) with n/d == 4*m + 4*l/rows; l, m, p are the enumerate indices of rows, measures, players."""
+    """C07.2-3 / C08.5: the reader, read off the path effects of NoteData.__iter__ and _iter_measure (helpers inlined, temporaries resolved):
+    sections split on '&' and measures on ',' (indices from 0, the measure text stripped); rows are the measure's lines; per row a fresh all-None
+    keysound list filled from the row's own stripped text; one Note per cell other than '0' with beat == 4*measure + 4*row/rows (an exact
+    numerator/denominator pair), the cell's index as column, NoteType(cell), the section index as player and the bracket value of that column."""
+    from .tables import Dec, closed, judge as tjudge, sums_of as tsums
     p = ctx.p
     fi = p.func(f"{ND}._iter_measure")
-    cons = record_constructions(ctx, fi, "simfile.notes.Note")
-    c = one(cons, f"Note construction in {fi.fq}")
-    fm = field_map(ctx, "simfile.notes.Note", c)
-    b = fm.get("beat")
-    require(b is not None and isinstance(b, ast.Call) and callee_name(ctx, fi, b) == "simfile.timing.Beat", f"{fi.fq}: beat is not a Beat(...): {src(b) if b is not None else '-'}")
-    if not (len(b.args) == 2 and not b.keywords):
-        ctx.bad("R-POLY", fi, "beat == 4*measure + 4*row/rows", f"{src(b)} is not an exact numerator/denominator pair: a single (float) argument is rounded to the 1/48 grid, so rows that do "
-                "not divide 192 (5, 10, 128 rows ...) get a wrong beat", node=b)
-        return
     params = fi.param_names()
     require(len(params) == 4, f"{fi.fq}: expected (self, p, m, measure)")
-    _, pp, pm, pmeasure = params
-    # loops
-    row_loop = None
-    for lp in for_loops(fi):
-        e = _enumerate_loop(lp)
-        if e and any(n is c for st in lp.body for n in walk_no_nested(st)):
-            if row_loop is None or any(n is lp for st in row_loop.body for n in walk_no_nested(st)) is False:
-                row_loop = row_loop or lp
-    require(row_loop is not None, f"{fi.fq}: no enumerate loop around the Note construction")
-    # outermost enumerate loop containing the construction = rows; innermost = cells
-    loops = [lp for lp in for_loops(fi) if _enumerate_loop(lp) and any(n is c for st in lp.body for n in walk_no_nested(st))]
-    require(len(loops) == 2, f"{fi.fq}: expected a row loop and a cell loop around the Note construction, found {len(loops)}")
-    outer, inner = (loops[0], loops[1]) if any(n is loops[1] for st in loops[0].body for n in walk_no_nested(st)) else (loops[1], loops[0])
-    l_idx, line_var, rows_iter = _enumerate_loop(outer)
-    c_idx, cell_var, cells_iter = _enumerate_loop(inner)
-    for lp_, what in ((outer, "row"), (inner, "column")):
-        ctx.expect("R-POLY", fi, f"{what} indices count from 0", _enumerate_start(lp_) == 0, "", f"enumerate starts at {_enumerate_start(lp_)}: every {what} index is shifted", node=lp_)
-    rows_src = inline(rows_iter, fi)
-    good_rows = (isinstance(rows_src, ast.Call) and isinstance(rows_src.func, ast.Attribute) and rows_src.func.attr == "splitlines" and not rows_src.args
-                 and isinstance(rows_src.func.value, ast.Name) and rows_src.func.value.id == pmeasure)
-    ctx.expect("R-TABLE", fi, "rows of a measure are its lines", good_rows, src(rows_src), f"row loop iterates {src(rows_src)}", node=outer)
-    ROWS = "len(%s)" % ast.unparse(rows_src)
+    sn, pp, pm, pmeasure = params
+    sums = tsums(ctx, fi)
 
-    def subst(e: ast.expr) -> Optional[ast.expr]:
-        if isinstance(e, ast.Name) and e.id not in (l_idx, pm, pp, c_idx):
-            bnd = locals_of(fi).single(e.id)
-            if bnd is not None and bnd.kind == "assign":
-                return bnd.value
-        if isinstance(e, ast.Call) and isinstance(e.func, ast.Name) and e.func.id == "len" and len(e.args) == 1:
-            inner_ = inline(e.args[0], fi)
-            if ast.unparse(inner_) == ast.unparse(rows_src) and ast.unparse(e) != ROWS:
-                return ast.parse(ROWS, mode="eval").body
+    def enum_of(e):
+        """for (i, x) in enumerate(E[, start]) -> (i, x, E, start) ; None otherwise"""
+        v = e.value
+        if (e.kind == "for" and isinstance(v, ast.Call) and isinstance(v.func, ast.Name) and v.func.id == "enumerate" and 1 <= len(v.args) <= 2 and all(k.arg == "start" for k in v.keywords)
+                and isinstance(e.target, ast.Tuple) and len(e.target.elts) == 2 and all(isinstance(x, ast.Name) for x in e.target.elts)):
+            start = v.args[1] if len(v.args) == 2 else next((k.value for k in v.keywords if k.arg == "start"), None)
+            sv = 0 if start is None else (start.value if isinstance(start, ast.Constant) else "?")
+            return e.target.elts[0].id, e.target.elts[1].id, v.args[0], sv
         return None
 
-    n, d = P.poly(b.args[0], subst), P.poly(b.args[1], subst)
-    rows = P.atom(ROWS)
-    m_, l_ = P.atom(pm), P.atom(l_idx)
-    spec_num = P.add(P.mul(P.mul(P.const(4), m_), rows), P.mul(P.const(4), l_))  # (4*m*rows + 4*l)
-    lhs, rhs = P.mul(n, rows), P.mul(spec_num, d)
-    ctx.expect("R-POLY", fi, "beat == 4*measure + 4*row/rows", P.equal(lhs, rhs) and d != {}, f"n={P.show(n)}; d={P.show(d)}",
-               f"Beat({src(b.args[0])}, {src(b.args[1])}): n*rows = {P.show(lhs)} but (4*m*rows + 4*l)*d = {P.show(rhs)}", node=b)
-    # fields from the cell
-    col, nt, pl, ks = fm.get("column"), fm.get("note_type"), fm.get("player"), fm.get("keysound_index")
-    ctx.expect("R-REBUILD", fi, "column is the cell's index in the row", isinstance(col, ast.Name) and col.id == c_idx, "", f"column={src(col) if col is not None else 'absent'}", node=c)
-    ok_nt = isinstance(nt, ast.Call) and callee_name(ctx, fi, nt) == "simfile.notes.NoteType" and len(nt.args) == 1 and isinstance(nt.args[0], ast.Name) and nt.args[0].id == cell_var
-    ctx.expect("R-REBUILD", fi, "note_type is NoteType(<the cell's character>)", ok_nt, "", f"note_type={src(nt) if nt is not None else 'absent'}", node=c)
-    ctx.expect("R-REBUILD", fi, "player is the section index", isinstance(pl, ast.Name) and pl.id == pp, "", f"player={src(pl) if pl is not None else 'absent (defaults to 0)'}", node=c)
-    ok_ks = isinstance(ks, ast.Subscript) and isinstance(ks.slice, ast.Name) and ks.slice.id == c_idx
-    ctx.expect("R-REBUILD", fi, "keysound_index is the bracket value recorded for this column", ok_ks, "", f"keysound_index={src(ks) if ks is not None else 'absent (defaults to None)'}", node=c)
-    if ok_ks and isinstance(ks.value, ast.Name):
-        kb = locals_of(fi).b.get(ks.value.id, [])
-        fresh = len(kb) == 1 and kb[0].kind == "assign" and in_body(outer, kb[0].node) and not in_body(inner, kb[0].node) \
-            and isinstance(kb[0].value, ast.BinOp) and isinstance(kb[0].value.op, ast.Mult) and isinstance(kb[0].value.left, ast.List) \
-            and len(kb[0].value.left.elts) == 1 and isinstance(kb[0].value.left.elts[0], ast.Constant) and kb[0].value.left.elts[0].value is None
-        ctx.expect("R-REBUILD", fi, "the keysound scratch list is created afresh (all None) for every row", fresh, "",
-                   f"'{ks.value.id}' is not re-created inside the row loop: an index parsed on one row leaks onto later notes in the same column", node=c)
-        ex = [x for x in calls(fi) if callee_name(ctx, fi, x).endswith("NoteData._extract_keysound_indices") and in_body(outer, x)]
-        def _row_text(e):
-            if isinstance(e, ast.Name) and e.id == line_var:
-                return True
-            if isinstance(e, ast.Name):
-                bs_ = [b for b in locals_of(fi).b.get(e.id, []) if b.kind == "assign" and in_body(outer, b.node)]
-                return len(bs_) == 1 and ast.unparse(bs_[0].value) == f"{line_var}.strip()"
-            return ast.unparse(e) == f"{line_var}.strip()"
+    # the two loops around the yield
+    shapes = set()
+    for s_ in sums:
+        for i, e in enumerate(s_.effects):
+            if e.kind == "yield":
+                fors = [(j, x) for j, x in enumerate(s_.effects[:i]) if x.kind == "for" and x.line in e.loops]
+                shapes.add(tuple((x.line, enum_of(x) is not None) for _, x in fors))
+    require(len(shapes) == 1 and len(next(iter(shapes))) == 2 and all(ok for _, ok in next(iter(shapes))),
+            f"{fi.fq}: expected the notes to be yielded inside a row loop and a cell loop, both `for i, x in enumerate(..)`; found {sorted(shapes)}")
+    (Lrow, _), (Lcell, _) = next(iter(shapes))
+    decs = []
+    row_facts = set()
+    for s_ in sums:
+        fr = next(((i, e) for i, e in enumerate(s_.effects) if e.kind == "for" and e.line == Lrow), None)
+        fc = next(((i, e) for i, e in enumerate(s_.effects) if e.kind == "for" and e.line == Lcell), None)
+        if fr is None:
+            continue
+        li, lv, rows_e, lstart = enum_of(fr[1])
+        rows_txt = ast.unparse(closed(s_, rows_e, fr[0]))
+        if fc is None:
+            row_facts.add(("rows", rows_txt, lstart))
+            continue
+        ci_, cv, cells_e, cstart = enum_of(fc[1])
+        # what the cells are: the result of the keysound extraction on this row's stripped text with this row's list
+        ks_names = {x.value.args[1].id for x in s_.effects[:fc[0]] if x.kind == "bind" and isinstance(x.value, ast.Call) and callee_name(ctx, fi, x.value).endswith("NoteData._extract_keysound_indices")
+                    and len(x.value.args) == 2 and isinstance(x.value.args[1], ast.Name)}
+        cells_c = closed(s_, cells_e, fc[0], keep=sorted(ks_names))
+        ks_name = None
+        cells_txt = ast.unparse(cells_c)
+        if isinstance(cells_c, ast.Call) and callee_name(ctx, fi, cells_c).endswith("NoteData._extract_keysound_indices") and len(cells_c.args) == 2 and isinstance(cells_c.args[1], ast.Name):
+            ks_name = cells_c.args[1].id
+        ks_bind = None
+        if ks_name is not None:
+            r = s_.resolve(ks_name, fc[0])
+            if r is not None:
+                ks_bind = (ast.unparse(r[1].value) if r[1].value is not None else "?", r[1].loops)
+        ct = re.sub(rf"\b{re.escape(lv)}\b", "ROW", cells_txt)
+        if ks_name:
+            ct = re.sub(rf"(?<![\w.]){re.escape(ks_name)}\b", "KS", ct)
+        row_facts.add(("cells", rows_txt, lstart, cstart, ct, ks_bind and (ks_bind[0], ks_bind[1] == (Lrow,))))
+        toks = []
+        for i, e in enumerate(s_.effects):
+            if Lcell not in e.loops:
+                continue
+            if e.kind == "yield":
+                v = closed(s_, e.value, i, keep=[lv, cv, li, ci_] + ([ks_name] if ks_name else []), opq=e.opq)
+                txt = None
+                if isinstance(v, ast.Call) and callee_name(ctx, fi, v) == "simfile.notes.Note":
+                    fm = field_map(ctx, "simfile.notes.Note", v)
+                    bt = fm.get("beat")
+                    beat_ok = None
+                    if isinstance(bt, ast.Call) and callee_name(ctx, fi, bt) == "simfile.timing.Beat" and len(bt.args) == 2 and not bt.keywords:
+                        ROWS = f"len({rows_txt})"
 
-        okx = len(ex) == 1 and len(ex[0].args) == 2 and isinstance(ex[0].args[1], ast.Name) and ex[0].args[1].id == ks.value.id and _row_text(ex[0].args[0])
-        ctx.expect("R-REBUILD", fi, "that list is the one filled from this row's brackets", okx, "", "", node=c)
-    # exactly one note per non-zero cell
-    fs = facts(ctx, fi, c)
-    nz = [(a, pol) for a, pol in fs if isinstance(a, ast.Compare) and isinstance(a.left, ast.Name) and a.left.id == cell_var]
-    ok_nz = len(fs) == 1 and len(nz) == 1 and ((isinstance(nz[0][0].ops[0], ast.NotEq) and nz[0][1]) or (isinstance(nz[0][0].ops[0], ast.Eq) and not nz[0][1])) \
-        and try_ev(ctx, fi, nz[0][0].comparators[0]) == "0"
-    ctx.expect("R-ORDER", fi, "a note is built exactly for cells other than '0'", ok_nz, unparse_facts(fs), f"the construction is guarded by {unparse_facts(fs)}", node=c)
-    ys = [n for n in body_walk(fi.node) if isinstance(n, (ast.Yield, ast.YieldFrom))]
-    ctx.expect("R-ORDER", fi, "the only yield is that note", len(ys) == 1 and isinstance(ys[0], ast.Yield) and ys[0].value is c, f"{len(ys)} yield(s)", f"{len(ys)} yield(s)", node=c)
-    # cells are the characters of the stripped, bracket-free line
-    cells_ok = isinstance(cells_iter, ast.Name) and (cells_iter.id == line_var or any(
-        b.kind == "assign" and in_body(outer, b.node) and isinstance(b.value, ast.Call) and callee_name(ctx, fi, b.value).endswith("NoteData._extract_keysound_indices")
-        for b in locals_of(fi).b.get(cells_iter.id, [])))
-    ctx.expect("R-TABLE", fi, "cells are the characters of the row", cells_ok, "", f"cell loop iterates {src(cells_iter)}", node=inner)
-    for lp in (outer, inner):
-        skips = [n for st in lp.body for n in walk_no_nested(st) if isinstance(n, (ast.Break, ast.Return))]
-        for cont in [n for st in lp.body for n in walk_no_nested(st) if isinstance(n, ast.Continue)]:
-            cf = [(ast.unparse(a), pol) for a, pol in facts(ctx, fi, cont)]
-            if cf not in ([(f"{cell_var} == '0'", True)], [(f"{cell_var} != '0'", False)]):
-                skips.append(cont)
-        ctx.expect("R-ORDER", fi, f"no row/cell is skipped in the loop over {src(lp.iter, 30)} (except empty cells)", not skips, "", f"{len(skips)} early exit(s)", node=lp)
+                        def subst(x):
+                            if isinstance(x, ast.Call) and isinstance(x.func, ast.Name) and x.func.id == "len" and len(x.args) == 1 and ast.unparse(x.args[0]) == rows_txt:
+                                return None
+                            return None
+
+                        n_, d_ = P.poly(bt.args[0]), P.poly(bt.args[1])
+                        rows_a = P.atom(ROWS)
+                        spec_num = P.add(P.mul(P.mul(P.const(4), P.atom(pm)), rows_a), P.mul(P.const(4), P.atom(li)))
+                        beat_ok = P.equal(P.mul(n_, rows_a), P.mul(spec_num, d_)) and d_ != {}
+                        beat_txt = "BEAT" if beat_ok else f"Beat({ast.unparse(bt.args[0])}, {ast.unparse(bt.args[1])}) [n*rows != (4*m*rows + 4*row)*d]"
+                    elif bt is not None:
+                        beat_txt = f"{ast.unparse(bt)} [not an exact numerator/denominator pair: a single argument is rounded to the 1/48 grid]"
+                    else:
+                        beat_txt = "<absent>"
+                    parts = {"beat": beat_txt}
+                    for fld in ("column", "note_type", "player", "keysound_index"):
+                        x = fm.get(fld)
+                        t = ast.unparse(x) if x is not None else "<absent (default)>"
+                        for a_, b_ in ((cv, "CELL"), (ci_, "COL"), (ks_name or "\0", "KS")):
+                            t = re.sub(rf"\b{re.escape(a_)}\b", b_, t)
+                        parts[fld] = t
+                    txt = "yield Note(" + ", ".join(f"{k}={v2}" for k, v2 in parts.items()) + ")"
+                toks.append(txt or ("yield " + ast.unparse(v)))
+            elif e.kind in ("break", "return", "raise", "yieldfrom", "store", "aug", "delete"):
+                toks.append(e.kind if e.kind in ("break", "return") else e.text)
+        asg = {re.sub(rf"\b{re.escape(cv)}\b", "CELL", k): v for k, v in s_.atoms_in(Lcell).items()}
+        decs.append(Dec(asg, tuple(toks), s_))
+    ctx.floor("paths through the cell loop of _iter_measure", len(decs), 2)
+    want = f"yield Note(beat=BEAT, column=COL, note_type=NoteType(CELL), player={pp}, keysound_index=KS[COL])"
+    tjudge(ctx, "R-REBUILD", fi, "a note is built exactly for cells other than '0': beat == 4*measure + 4*row/rows (exact pair), column = the cell's index, NoteType(cell), "
+           "player = the section index, keysound_index = the bracket value recorded for this column", decs, ["CELL == '0'"], lambda a: () if a["CELL == '0'"] else (want,),
+           why="one correctly placed note per non-zero cell; every field comes from the cell's own position and text")
+    cells_facts = [f for f in row_facts if f[0] == "cells"]
+    good_rows = bool(cells_facts) and all(f[1] == f"{pmeasure}.splitlines()" for f in row_facts)
+    ctx.expect("R-TABLE", fi, "rows of a measure are its lines", good_rows, str(sorted({f[1] for f in row_facts})), f"the row loop iterates {sorted({f[1] for f in row_facts})}", node=fi.node)
+    ctx.expect("R-POLY", fi, "row and column indices count from 0", all(f[2] == 0 for f in row_facts) and all(f[3] == 0 for f in cells_facts), "", f"enumerate starts: rows {sorted({f[2] for f in row_facts})}, "
+               f"cells {sorted({f[3] for f in cells_facts})}: every index is shifted", node=fi.node)
+    ctx.expect("R-TABLE", fi, "cells are the characters of the row: the row's own stripped text with its keysound brackets extracted", bool(cells_facts) and
+               all(f[4] == "NoteData._extract_keysound_indices(ROW.strip(), KS)" for f in cells_facts), str(sorted({f[4] for f in cells_facts})),
+               f"the cell loop iterates {sorted({f[4] for f in cells_facts})}", node=fi.node)
+    ctx.expect("R-REBUILD", fi, "the keysound scratch list is created afresh (all None) for every row", bool(cells_facts) and all(f[5] is not None and f[5][1] is True and f[5][0].startswith("[None] * ") for f in cells_facts), "",
+               f"the list handed to the extraction is {sorted({str(f[5]) for f in cells_facts})} (expected a new [None] * {sn}._columns inside the row loop): an index parsed on one row leaks onto later "
+               "notes in the same column", node=fi.node)
     # call site in __iter__
     fit = p.func(f"{ND}.__iter__")
-    cc = [x for x in calls(fit) if callee_name(ctx, fit, x) == fi.fq]
-    call = one(cc, f"call of _iter_measure in {fit.fq}")
-    require(len(call.args) == 3, f"{fit.fq}: _iter_measure call has {len(call.args)} positional arguments")
-    loops2 = [lp for lp in for_loops(fit) if _enumerate_loop(lp) and any(n is call for st in lp.body for n in walk_no_nested(st))]
-    require(len(loops2) == 2, f"{fit.fq}: expected player and measure loops around the _iter_measure call")
-    o2, i2 = (loops2[0], loops2[1]) if any(n is loops2[1] for st in loops2[0].body for n in walk_no_nested(st)) else (loops2[1], loops2[0])
-    p_idx, sect_var, p_iter = _enumerate_loop(o2)
-    m_idx, meas_var, m_iter = _enumerate_loop(i2)
-    for lp_, what in ((o2, "player"), (i2, "measure")):
-        ctx.expect("R-POLY", fit, f"{what} indices count from 0", _enumerate_start(lp_) == 0, "", f"enumerate starts at {_enumerate_start(lp_)}", node=lp_)
-    sp, sm = _split_on(inline(p_iter, fit)), _split_on(inline(m_iter, fit))
-    sn = fit.param_names()[0]
-    ctx.expect("R-TABLE", fit, "player sections are split on '&'", sp is not None and sp[1] == "&" and self_attr(sp[0], sn) == "_notedata", src(p_iter), f"outer loop iterates {src(p_iter)}", node=o2)
-    ctx.expect("R-TABLE", fit, "measures are split on ','", sm is not None and sm[1] == "," and isinstance(sm[0], ast.Name) and sm[0].id == sect_var, src(m_iter), f"inner loop iterates {src(m_iter)}", node=i2)
-    a0, a1, a2 = call.args
-    ctx.expect("R-FWD", fit, "player index passed as p", isinstance(a0, ast.Name) and a0.id == p_idx, "", f"p={src(a0)}", node=call)
-    ctx.expect("R-FWD", fit, "measure index passed as m", isinstance(a1, ast.Name) and a1.id == m_idx, "", f"m={src(a1)}", node=call)
-    ok2 = isinstance(a2, ast.Call) and isinstance(a2.func, ast.Attribute) and a2.func.attr == "strip" and not a2.args and isinstance(a2.func.value, ast.Name) and a2.func.value.id == meas_var
-    ctx.expect("R-FWD", fit, "the measure text is passed stripped of surrounding blank lines", ok2, "", f"measure={src(a2)}", node=call)
-    yf = [n for n in body_walk(fit.node) if isinstance(n, (ast.Yield, ast.YieldFrom))]
-    ctx.expect("R-ORDER", fit, "every measure's notes are yielded in text order", len(yf) == 1 and isinstance(yf[0], ast.YieldFrom) and yf[0].value is call and not
-               [n for lp in (o2, i2) for st in lp.body for n in walk_no_nested(st) if isinstance(n, (ast.Continue, ast.Break, ast.Return))], "", "", node=call)
+    sn2 = fit.param_names()[0]
+    isums = tsums(ctx, fit)
+    seen = set()
+    for s_ in isums:
+        fors = [(i, e) for i, e in enumerate(s_.effects) if e.kind == "for"]
+        ys = [(i, e) for i, e in enumerate(s_.effects) if e.kind in ("yield", "yieldfrom")]
+        others = [e.text for e in s_.effects if e.kind in ("break", "continue", "return", "raise", "store") and e.loops]
+        for i, e in ys:
+            encl = [(j, x) for j, x in fors if x.line in e.loops]
+            if len(encl) != 2 or not all(enum_of(x) for _, x in encl):
+                seen.add(("?", ast.unparse(e.value) if e.value is not None else ""))
+                continue
+            (j1, f1), (j2, f2) = encl
+            p_i, sec, it1, st1 = enum_of(f1)
+            m_i, meas, it2, st2 = enum_of(f2)
+            t1 = ast.unparse(closed(s_, it1, j1))
+            t2 = ast.unparse(closed(s_, it2, j2, keep=[sec])).replace(sec, "SECTION")
+            call = ast.unparse(closed(s_, e.value, i, keep=[p_i, m_i, meas]))
+            for a_, b_ in ((p_i, "P"), (m_i, "M"), (meas, "MEASURE")):
+                call = re.sub(rf"\b{re.escape(a_)}\b", b_, call)
+            seen.add((e.kind, t1, st1, t2, st2, call, tuple(others)))
+    want_it = ("yieldfrom", f"{sn2}._notedata.split('&')", 0, "SECTION.split(',')", 0, f"{sn2}._iter_measure(P, M, MEASURE.strip())", ())
+    ctx.expect("R-TABLE", fit, "player sections are split on '&' and measures on ',' (indices from 0); every measure's text, stripped of surrounding blank lines, is decoded with its player and "
+               "measure index, in text order", seen == {want_it}, str(sorted(seen))[:300], f"__iter__ does {sorted(seen)}; expected {want_it}", node=fit.node)
 
 
 def notedata_verbatim(ctx: Ctx) -> None:
@@ -1040,6 +1061,9 @@ def keysound_extraction(ctx: Ctx) -> None:
             elif e.kind == "bind" and isinstance(e.target, ast.Name) and e.target.id == line:
                 eff.append(closed_text(s_, e, keep=[line, ki]))
         k, v = s_.terminal()
+        # where the row has a '[', str.find and str.index name the same position
+        if s_.plain_assign().get(canon_k(HAS)) is True:
+            eff = [t.replace(f"{line}.find('[')", OB) for t in eff]
         return tuple(eff) + ((k + " " + (ast.unparse(v) if v is not None else "None")),)
 
     def spec(a):
